@@ -33,10 +33,13 @@ import (
 )
 
 // AllocBound is the per-call allocation ceiling for hostile inputs.  Hostile
-// inputs are at most a few KiB; every anchored codec bounds its collections
-// either by a static limit (≤256 items of ≤2 KiB each) or by the remaining
-// input length, so correct code stays three orders of magnitude below it.
-const AllocBound = 64 << 20
+// inputs are at most 8 KiB.  Every anchored codec bounds a collection either
+// by a static limit (≤256 items of ≤2 KiB) or by the number of remaining input
+// bytes (≤8192 elements of ≤300 B), and stops at the first element it cannot
+// read, so correct code stays below ~5 MiB per call; the largest per-call
+// figure observed on the unchanged tree is in evidence (max_batch_alloc_bytes,
+// which is the sum over a batch of 64 calls).
+const AllocBound = 32 << 20
 
 // ---------------------------------------------------------------------------
 // value generation
@@ -581,9 +584,9 @@ func mutate(rng *rand.Rand, enc []byte) []byte {
 // hostileSweep is the ascending list of declared lengths written over every
 // offset.  Ascending, and swept value-major, so that a missing bound is first
 // met with a length whose allocation is large enough to be metered (tens of MiB
-// to a few GiB) before lengths that can only crash the process are tried.
-var hostileUvarints = []uint64{1 << 20, 1 << 24, math.MaxUint32, 1 << 62, math.MaxUint64}
-var hostileBE32 = []uint32{0x00100000, 0x01000000, 0xffffffff}
+// to a few GiB; element sizes range from 8 B to 2 KiB) before lengths that can only crash the process are tried.
+var hostileUvarints = []uint64{1 << 18, 1 << 20, 1 << 22, 1 << 24, math.MaxUint32, 1 << 62, math.MaxUint64}
+var hostileBE32 = []uint32{0x00040000, 0x00400000, 0xffffffff}
 
 // hostileVariants calls fn with enc where a huge declared length has been
 // written at every offset (at most maxOffsets, evenly spread): as a uvarint
